@@ -25,7 +25,13 @@ _logging.disable(_logging.CRITICAL)
 
 def _load(pid):
     sys.path.insert(0, VERIF)
-    return importlib.import_module(f"props.{pid.lower()}")
+    mod = importlib.import_module(f"props.{pid.lower()}")
+    late = getattr(mod, "_late", None)
+    if late is not None and not getattr(mod, "_late_done", False):
+        # harnesses shared with a module that imports this one (registered after both are loaded)
+        mod._late_done = True
+        late()
+    return mod
 
 
 def _job(args):
